@@ -2,7 +2,8 @@
 Model of `swimos_model::Value`'s `Ord` (`Value::compare`, 12×12 cells), `PartialEq` and `Hash`
 (api/swimos_model/src/value.rs), with `Attr::compare` (attr.rs), `Item::compare` (item.rs), the derived
 `PartialEq`/`Hash` of `Attr`/`Item`/`Blob`, `num::cmp_*` (num.rs) — branch by branch, the code AS IT IS
-(including the incoherent cells of finding F13).
+(including the incoherent cells of finding F13 that remain after the three `fix:` commits F13-negzero,
+F13-data-order, F13-inf-refl).
 
 Representation.
 * integers are `Int`; the fixed-width kinds carry a range predicate (`Val.wf`; the parser rejects anything else);
@@ -168,6 +169,7 @@ def cmpFloatInt (x : Fl) (m : Int) : Ordering :=
 def cmpFloatFloat (x y : Fl) : Ordering :=
   if x.isNan then (if y.isNan then .eq else .lt)
   else if y.isNan then .gt
+  else if x.feq y then .eq                 -- covers the infinities (`inf - inf` is NaN)
   else if absDiffLtEps x y then .eq
   else if x.flt y then .lt
   else .gt
@@ -246,9 +248,12 @@ def cmpFlat (a b : Val) : Ordering :=
     | _ => .gt
   | .text s => match b with
     | .record _ => .gt
+    | .data _ => .gt
     | .text t => cmpBytes s t
     | _ => .lt
-  | .record _ => .lt      -- (`Record` vs `Record` is `Elems.cmp`, see `Val.cmp`)
+  | .record _ => match b with      -- (`Record` vs `Record` is `Elems.cmp`, see `Val.cmp`)
+    | .data _ => .gt
+    | _ => .lt
   | .bigint bi => match b with
     | .extant => .lt
     | .bool _ => .lt
@@ -427,7 +432,7 @@ def Val.hashKey : Val → List Int
   | .i64 n => [1, n]
   | .u32 n => [1, n]
   | .u64 n => [1, n]
-  | .f64 x => [2, if (decode x).isNan then 0 else (x : Int)]
+  | .f64 x => [2, if (decode x).isNan then 0 else if (decode x).feq (.fin 0 0) then 0 else (x : Int)]
   | .bool p => [3, if p then 1 else 0]
   | .text s => 4 :: (bytesKey s ++ [255])
   | .record es => (5 :: (es.nAttrs : Int) :: Elems.attrKeys es) ++ ((es.nItems : Int) :: Elems.itemKeys es)
@@ -639,10 +644,9 @@ def apiLine (line : String) : String :=
 /-! ## monitor: the laws on the observed answers of the implementation alone -/
 
 mutual
-/-- No `Float64`, no `Data` anywhere inside: the fragment `F` of the theorems. -/
+/-- No `Float64` anywhere inside: the fragment `F` of the theorems. -/
 def Val.inF : Val → Bool
   | .f64 _ => false
-  | .data _ => false
   | .record es => Elems.inF es
   | _ => true
 def Elems.inF : Elems → Bool
@@ -653,7 +657,7 @@ def Elems.inF : Elems → Bool
 end
 
 /-- Classification label of a value: its `ValueKind`; records are split into those inside the fragment `F`
-(`Record`) and those containing a float or a blob somewhere (`Record.x`). -/
+(`Record`) and those containing a float somewhere (`Record.x`). -/
 def Val.kindLabel : Val → String
   | .extant => "Extant"
   | .bool _ => "Boolean"
@@ -748,7 +752,7 @@ def checkNew (old : List Fact) (f : Fact) : Option String :=
 /-- Class of a list on which `sort_by` panicked: the kinds outside the fragment `F` that occur in it (`F` if none). -/
 def sortPanicLabel (vs : List Val) : String :=
   let ks := vs.map Val.kindLabel
-  let bad := ["Data", "Float64", "Record.x"].filter fun k => ks.contains k
+  let bad := ["Float64", "Record.x"].filter fun k => ks.contains k
   if bad.isEmpty then "F" else ":".intercalate bad
 
 def isPerm (n : Nat) (idx : List Nat) : Bool :=
